@@ -1,6 +1,7 @@
 ---- MODULE RBACMC ----
 (***************************************************************************)
-(* Stage (a) for C48.  One TLC state per abstract input (kind, x):         *)
+(* Stage (a) for C48.  One TLC state per abstract input (kind, x), each the  *)
+(* successor of a seed state:                                              *)
 (*   req          a request of the bounded request domain Reqs             *)
 (*   pleaf/qleaf  every permission / principal leaf matcher                *)
 (*   ptree/qtree  every permission / principal tree of depth <= 2 over     *)
@@ -132,16 +133,22 @@ Invalid == {[name |-> <<>>, deny |-> <<>>, allow |-> <<AllowAll>>], Policy(<<All
             Policy(<<>>, <<Rule(<<114>>, <<>>, <<>>, <<H("grpc-timeout", <<VA>>)>>)>>)}
 RulePolicies == {Policy(<<>>, <<u>>) : u \in RuleBodies} \cup {Policy(<<u>>, <<AllowAll>>) : u \in RuleBodies}
 
+\* One initial "seed" state per group of inputs; its successors are the inputs of the group (so
+\* that TLC's workers share the enumeration and the invariant evaluation).
 On(k) == Only \in {"all", k}
-Init == \/ (On("req") /\ kind = "req" /\ x \in Reqs)
-        \/ (On("pleaf") /\ kind = "pleaf" /\ x \in PermLeaves)
-        \/ (On("qleaf") /\ kind = "qleaf" /\ x \in PrinLeaves)
-        \/ (On("ptree") /\ kind = "ptree" /\ x \in PTrees)
-        \/ (On("qtree") /\ kind = "qtree" /\ x \in QTrees)
-        \/ (On("chain") /\ kind = "chain" /\ x \in Chains)
-        \/ (On("rule") /\ kind = "rule" /\ x \in RulePolicies)
-        \/ (On("authz") /\ kind = "authz" /\ x \in Policies8 \cup Invalid)
-Next == UNCHANGED vars
+Seeds == {<<"req", "a">>, <<"pleaf", "a">>, <<"qleaf", "a">>, <<"ptree", "a">>, <<"qtree", "a">>,
+          <<"chain", "a">>, <<"chain", "b">>, <<"rule", "a">>, <<"rule", "b">>, <<"authz", "a">>, <<"authz", "b">>}
+Group(s) ==
+  CASE s[1] = "req"   -> Reqs
+    [] s[1] = "pleaf" -> PermLeaves
+    [] s[1] = "qleaf" -> PrinLeaves
+    [] s[1] = "ptree" -> PTrees
+    [] s[1] = "qtree" -> QTrees
+    [] s[1] = "chain" -> {c \in Chains : (s[2] = "a") = (Len(c) < 2 \/ c[1].action = "ALLOW")}
+    [] s[1] = "rule"  -> {q \in RulePolicies : (s[2] = "a") = (q.deny = <<>>)}
+    [] OTHER          -> {q \in Policies8 \cup Invalid : (s[2] = "a") = (Len(q.deny) < 2)}
+Init == kind = "seed" /\ x \in {s \in Seeds : On(s[1])}
+Next == kind = "seed" /\ kind' = x[1] /\ x' \in Group(x)
 
 \* ---- the reference against the property statement ----
 Modes == {"first", "all"}
@@ -158,9 +165,9 @@ I_TreeLaws ==
     /\ (Eval(x, r, "first") # Eval(x, r, "all") => r.cert = 1 /\ Len(r.uris) + Len(r.dns) > 0)
 \* a tree used as the only permission (principal) of the only policy of an ALLOW engine decides alone
 I_TreeAsPolicy ==
-  IsTree => \A r \in Reqs, md \in Modes :
-    /\ Chain(<<[action |-> "ALLOW", policies |-> <<Pol(<<x>>, <<AnyT>>)>>]>>, r, md) = Eval(x, r, md)
-    /\ Chain(<<[action |-> "DENY", policies |-> <<Pol(<<AnyT>>, <<x>>)>>]>>, r, md) = ~Eval(x, r, md)
+  IsTree => \A r \in Reqs :
+    /\ Chain(<<[action |-> "ALLOW", policies |-> <<Pol(<<x>>, <<AnyT>>)>>]>>, r, "first") = Eval(x, r, "first")
+    /\ Chain(<<[action |-> "DENY", policies |-> <<Pol(<<AnyT>>, <<x>>)>>]>>, r, "all") = ~Eval(x, r, "all")
 \* the engine chain: declarative statement = in-order evaluation; more engines never allow more
 ChainOf(e) == IF Mutant = 2   \* negative control: a trailing ALLOW engine is not consulted
               THEN (IF Len(e) > 0 /\ e[Len(e)].action = "ALLOW" THEN SubSeq(e, 1, Len(e) - 1) ELSE e) ELSE e
